@@ -150,7 +150,9 @@ class Gen:
                 self.next_label += 1
                 h = self.next_obs
                 self.next_obs += 1
-                self.emit(f"pobsset {p} 1 {lab} {h} {self.r.choice(tgt2)}")
+                # on an unbound host the writer may also listen to valueAboutToChange (it then writes the OLD value)
+                kk = 0 if (not self.props[p]['bound'] and self.r.random() < 0.3) else 1
+                self.emit(f"pobsset {p} {kk} {lab} {h} {self.r.choice(tgt2)}")
                 self.ahosts.add(p)
                 return
         lab = self.next_label
